@@ -212,9 +212,10 @@ def main():
             {"name": "SEQ", "path": "vkit/progs.py", "kind_free_text": "bounded-exhaustive program/input enumerator + reference interpreter", "serves_properties": ["C01", "C02", "C03", "C04", "C07", "C10", "C13", "C14", "C15", "C17", "C18", "C20"]},
             {"name": "FLT", "path": "vkit/flt.py", "kind_free_text": "deviation-bounded environment-answer (fault) explorer", "serves_properties": ["C02", "C07", "C08", "C13", "C19"]},
             {"name": "LAT", "path": "vkit/lat.py", "kind_free_text": "explicit-state BFS over real objects", "serves_properties": ["C09", "C12"]},
-            {"name": "THR", "path": "vkit/thr.py", "kind_free_text": "stateless preemption-bounded thread-schedule explorer (baton + settrace)", "serves_properties": ["C05", "C06", "C12", "C16", "C19"]},
+            {"name": "THR", "path": "vkit/thr.py", "kind_free_text": "stateless preemption-bounded thread-schedule explorer (baton + settrace)", "serves_properties": ["C02", "C03", "C05", "C06", "C07", "C08", "C12", "C13", "C16", "C19"]},
+            {"name": "PROJ", "path": "vkit/proj.py", "kind_free_text": "on top of THR: all schedules of 2-3 threads with scheduling points inside the logging calls; every thread's own log must equal the sequential schedule's", "serves_properties": ["C03", "C05", "C07"]},
             {"name": "AIO", "path": "vkit/aio.py", "kind_free_text": "asyncio interleaving explorer (hand-driven loop)", "serves_properties": ["C02", "C05"]},
-            {"name": "CRASH", "path": "vkit/crash.py", "kind_free_text": "crash-point / torn-write enumerator", "serves_properties": ["C11"]},
+            {"name": "CRASH", "path": "props/c11_crash.py", "kind_free_text": "crash-point / torn-write enumerator", "serves_properties": ["C11"]},
         ],
         "checks": checks,
         "not_applicable": na,
